@@ -263,6 +263,7 @@ PTRef MainSolver::rewriteMaxArity(PTRef root) {
 std::unique_ptr<Model> MainSolver::getModel() {
     if (!config.produce_models()) { throw ApiException("Producing models is not enabled"); }
     if (status != s_True) { throw ApiException("Model cannot be created if solver is not in SAT state"); }
+    if (not theoryModelComputed) { throw ApiException("Producing models was not enabled when the satisfiability check ran"); }
 
     ModelBuilder modelBuilder{logic};
     smt_solver->fillBooleanVars(modelBuilder);
@@ -384,9 +385,13 @@ sstat MainSolver::solve() {
     for (std::size_t i = 0; i < frames.frameCount(); ++i) {
         en_frames.push(frames[i].getId());
     }
+    theoryModelComputed = false;
     status = solve_(en_frames);
 
-    if (status == s_True && config.produce_models()) thandler->computeModel();
+    if (status == s_True && config.produce_models()) {
+        thandler->computeModel();
+        theoryModelComputed = true;
+    }
     smt_solver->clearSearch();
     return status;
 }
